@@ -86,6 +86,21 @@ class Run:
                 foreign += 1
         return bag, foreign, none, err
 
+    def queryx(self, klass, dom):
+        """An explicit-domain query, built, evaluated and discarded inside this frame."""
+        x = let(klass, dom)
+        return len(list(an(entity(x)).evaluate()))
+
+    def queryfirst(self, klass):
+        """A partially consumed evaluation of a domain-less query with a (true) condition: one result, then abandoned."""
+        x = let(klass, None)
+        it = iter(an(entity(x, x.name != "")).evaluate())
+        r = next(it, None)
+        m = self.idmap()
+        got = m.get(id(r), 0) if r is not None else None
+        it.close()
+        return got
+
     def step(self, rec):
         a = rec["a"]
         out = {"a": a}
@@ -122,6 +137,11 @@ class Run:
             out["bag"] = {str(k): v for k, v in sorted(bag.items())}
             out["foreign"] = foreign
             out["none"] = none
+        elif a == "queryx":
+            out["census_before"] = self.census()
+            out["n"] = self.queryx(CLS[rec["c"]], [self.objs[o + self.base] for o in rec["dom"]])
+        elif a == "queryfirst":
+            out["first"] = self.queryfirst(CLS[rec["c"]])
         elif a == "relate":
             p, c = self.objs[rec["p"] + self.base], self.objs[rec["c"] + self.base]
             try:
@@ -153,10 +173,14 @@ class Run:
                 self.dead_addrs.add(a)
         return out
 
-    def drop_all(self):
+    def drop_all(self, mode="sweep"):
         self.objs.clear()
         gc.collect()
-        SymbolGraph().remove_dead_instances()
+        if mode == "sweep":
+            SymbolGraph().remove_dead_instances()
+        else:
+            # ordinary use: any evaluation prunes the registry; the query itself ranges over nothing the history created
+            list(an(entity(let(sgmodel.Other, []))).evaluate())
 
 
 def handle(case):
@@ -179,12 +203,14 @@ def handle(case):
                 steps = [run.step(r) for r in case["h"]]
                 if it == 0:
                     res["steps"] = steps
-                run.drop_all()
+                run.drop_all(case.get("end", "sweep"))
                 left = run.census()
                 g = SymbolGraph()
                 growth.append({"krrood": dict(krrood_census()), "nodes": len(g.wrapped_instances),
+                               "relations": len(list(g.relations())),
                                "alive_after_discard": left})
             res["growth"] = growth
+            res["end_query_footprint"] = dict(FOOTPRINT)
         else:
             res["steps"] = [run.step(r) for r in case["h"]]
             # final audit (C13 on whatever the history left behind): one domain-less query per class in use
@@ -208,12 +234,23 @@ def handle(case):
     return res
 
 
+FOOTPRINT = {}
+
+
 def setup(args):
     gc.collect()
     gc.freeze()
     gc.disable()
     SymbolGraph().clear()
     SymbolGraph()
+    # calibration: what one evaluation of the end-of-iteration query leaves behind in krrood-typed objects
+    list(an(entity(let(sgmodel.Other, []))).evaluate())
+    gc.collect()
+    c0 = krrood_census()
+    list(an(entity(let(sgmodel.Other, []))).evaluate())
+    gc.collect()
+    c1 = krrood_census()
+    FOOTPRINT.update({t: c1[t] - c0.get(t, 0) for t in c1 if c1[t] != c0.get(t, 0)})
     return None
 
 
